@@ -1,6 +1,8 @@
+import Reduino.Props.C04
 import Reduino.Props.C12
 import Reduino.Props.C13
 import Reduino.Props.C15
 import Reduino.Props.C16
+import Reduino.Props.C17
 import Reduino.Props.C19
 import Reduino.Props.C20
